@@ -47,11 +47,13 @@ const (
 	c11KClose
 	c11KHead
 	c11KGranted // body over Server.MaxRequestBodySize but within the per-request override HeaderReceived grants to /granted/ paths
+	c11KRespStream // the handler answers with a streamed body and declares response trailers
 	c11NKinds
 )
 
 var c11KindName = [...]string{"GET", "POST-urlencoded", "POST-multipart", "POST-chunked", "expect-accepted", "expect-rejected",
-	"parse-error", "oversized-body", "hijack", "body-left-unread", "handler-sets-connection-close", "HEAD", "oversized-but-granted-by-HeaderReceived"}
+	"parse-error", "oversized-body", "hijack", "body-left-unread", "handler-sets-connection-close", "HEAD", "oversized-but-granted-by-HeaderReceived",
+	"handler-streams-response-with-trailers"}
 
 const c11MaxBody = 16 << 10
 
@@ -115,6 +117,8 @@ func c11Raw(kind, v int) []byte {
 		}
 		return []byte("POST /granted/" + pick("a", "b") + " HTTP/1.1\r\nHost: c11.example\r\nContent-Type: application/x-www-form-urlencoded\r\n" + pick("X-Granted: 1\r\n", "") +
 			cl("big="+strings.Repeat("G", n-4)))
+	case c11KRespStream:
+		return []byte("GET /stream/" + pick("a?s=1", "b") + " HTTP/1.1\r\nHost: c11.example\r\nX-Do: stream-trailers-" + pick("chunked", "sized") + "\r\n" + pick("X-Stream: s0\r\n", "") + "\r\n")
 	case c11KHead:
 		return []byte("HEAD /head/" + pick("a?hd=1", "b") + " HTTP/1.1\r\nHost: c11.example\r\n" + pick("X-Head: h0\r\n", "") + "\r\n")
 	}
@@ -123,7 +127,7 @@ func c11Raw(kind, v int) []byte {
 
 func c11Method(kind int) string {
 	switch kind {
-	case c11KGet, c11KParseError, c11KHijack, c11KClose:
+	case c11KGet, c11KParseError, c11KHijack, c11KClose, c11KRespStream:
 		return "GET"
 	case c11KHead:
 		return "HEAD"
@@ -197,6 +201,14 @@ type c11Snap struct {
 	RespClose   bool
 	RespFlags   string
 	CtxFlags    string
+	// round 5: the parts of the response / request header no handler of the grammar used to set
+	RespLine     string   // protocol, status message, content encoding
+	RespTrailer  []string // declared response trailer names (Trailers iterator) + Peek("Trailer")
+	RespMulti    []string // PeekAll of the header the handlers add twice
+	RespHdrBytes string   // ResponseHeader.String() (what would be written for the untouched response), Date line dropped
+	ReqTrailer   []string // declared request trailer names + Peek("Trailer")
+	ReqMulti     []string
+	ReqRaw       string // RequestHeader.RawHeaders()
 }
 
 var c11Fields = []struct {
@@ -228,6 +240,13 @@ var c11Fields = []struct {
 	{"response-connection-close", func(s *c11Snap) any { return s.RespClose }},
 	{"response-flags", func(s *c11Snap) any { return s.RespFlags }},
 	{"ctx-flags", func(s *c11Snap) any { return s.CtxFlags }},
+	{"response-status-line-and-encoding", func(s *c11Snap) any { return s.RespLine }},
+	{"response-trailer-declaration", func(s *c11Snap) any { return s.RespTrailer }},
+	{"response-multi-value-header", func(s *c11Snap) any { return s.RespMulti }},
+	{"response-header-bytes", func(s *c11Snap) any { return s.RespHdrBytes }},
+	{"request-trailer-declaration", func(s *c11Snap) any { return s.ReqTrailer }},
+	{"request-multi-value-header", func(s *c11Snap) any { return s.ReqMulti }},
+	{"request-raw-headers", func(s *c11Snap) any { return s.ReqRaw }},
 }
 
 func c11JSON(v any) string { b, _ := json.Marshal(v); return string(b) }
@@ -244,6 +263,8 @@ func c11Diff(got, want *c11Snap) (string, string, string) {
 }
 
 type c11KeyT struct{}
+
+const c11MultiHdr = "X-Mul" // added twice to the response and to the request by every handler invocation
 
 type c11Closer struct{ closed *atomic.Int64 }
 
@@ -320,9 +341,32 @@ func c11TakeSnapshot(ctx *RequestCtx) *c11Snap {
 	sort.Strings(s.RespCookies)
 	s.RespBody = string(ctx.Response.Body())
 	s.RespClose = ctx.Response.ConnectionClose()
-	s.RespFlags = fmt.Sprintf("SkipBody=%v ImmediateHeaderFlush=%v IsBodyStream=%v ContentLength=%d ContentType=%q Server=%q",
+	s.RespFlags = fmt.Sprintf("SkipBody=%v ImmediateHeaderFlush=%v IsBodyStream=%v ContentLength=%d ContentType=%q Server=%q StreamBody=%v",
 		ctx.Response.SkipBody, ctx.Response.ImmediateHeaderFlush, ctx.Response.IsBodyStream(), ctx.Response.Header.ContentLength(),
-		ctx.Response.Header.ContentType(), ctx.Response.Header.Server())
+		ctx.Response.Header.ContentType(), ctx.Response.Header.Server(), ctx.Response.StreamBody)
+	s.RespLine = fmt.Sprintf("protocol=%q status-message=%q content-encoding=%q", ctx.Response.Header.Protocol(), ctx.Response.Header.StatusMessage(), ctx.Response.Header.ContentEncoding())
+	ctx.Response.Header.VisitAllTrailer(func(v []byte) { s.RespTrailer = append(s.RespTrailer, string(v)) })
+	if v := ctx.Response.Header.Peek(HeaderTrailer); len(v) > 0 {
+		s.RespTrailer = append(s.RespTrailer, "Peek: "+string(v))
+	}
+	for _, v := range ctx.Response.Header.PeekAll(c11MultiHdr) {
+		s.RespMulti = append(s.RespMulti, string(v))
+	}
+	for _, l := range strings.SplitAfter(ctx.Response.Header.String(), "\r\n") {
+		if !strings.HasPrefix(l, "Date:") { // wall clock
+			s.RespHdrBytes += l
+		}
+	}
+	ctx.Request.Header.VisitAllTrailer(func(v []byte) { s.ReqTrailer = append(s.ReqTrailer, string(v)) })
+	if v := ctx.Request.Header.Peek(HeaderTrailer); len(v) > 0 {
+		s.ReqTrailer = append(s.ReqTrailer, "Peek: "+string(v))
+	}
+	for _, v := range ctx.Request.Header.PeekAll(c11MultiHdr) {
+		s.ReqMulti = append(s.ReqMulti, string(v))
+	}
+	if raw := ctx.Request.Header.RawHeaders(); len(raw) > 0 {
+		s.ReqRaw = string(raw)
+	}
 	return s
 }
 
@@ -348,6 +392,33 @@ func c11Mutate(ctx *RequestCtx, do string, closes *atomic.Int64) {
 	ctx.Response.Header.Set("X-Marker", marker)
 	ctx.SetBodyString(marker)
 	ctx.Response.ImmediateHeaderFlush = true
+	ctx.Response.StreamBody = true
+	ctx.Response.Header.SetStatusMessage([]byte("Mutated"))
+	ctx.Response.Header.SetContentEncoding("identity")
+	ctx.Response.Header.Add(c11MultiHdr, "r1")
+	ctx.Response.Header.Add(c11MultiHdr, "r2")
+	_ = ctx.Response.Header.PeekAll(c11MultiHdr)
+	// an ordinary header whose name other responses (stream-trailers) declare as a trailer: a trailer declaration
+	// that survives drops it from the header block
+	ctx.Response.Header.Set("X-Sum", "plain")
+	switch do {
+	case "leave-body":
+		ctx.Response.SetBodyRaw([]byte(marker))
+	case "stream-trailers-chunked":
+		// chunked response, both declared fields are sent after the body
+		_ = ctx.Response.Header.SetTrailer("X-Sum, X-Count")
+		ctx.Response.Header.Set("X-Sum", "sum:"+marker)
+		ctx.Response.Header.Set("X-Count", "3")
+		ctx.SetBodyStream(strings.NewReader(marker+" streamed"), -1)
+	case "stream-trailers-sized":
+		// body stream of known size (identity framing): the declaration is made (AddTrailer twice) but nothing is sent after the body
+		_ = ctx.Response.Header.AddTrailer("X-Count")
+		_ = ctx.Response.Header.AddTrailer("X-Sum")
+		ctx.Response.Header.Set("X-Count", "1")
+		ctx.SetBodyStream(strings.NewReader(marker+" streamed"), len(marker+" streamed"))
+	case "close":
+		ctx.Response.Header.SetProtocol([]byte("HTTP/1.0"))
+	}
 	// request
 	ctx.URI().SetPath("/mutated/path")
 	ctx.URI().SetQueryString("mut=1")
@@ -358,6 +429,11 @@ func c11Mutate(ctx *RequestCtx, do string, closes *atomic.Int64) {
 	}
 	ctx.Request.Header.DisableNormalizing()
 	ctx.Request.Header.Set("x-leak-req", "1")
+	ctx.Request.Header.Add(c11MultiHdr, "q1")
+	ctx.Request.Header.Add(c11MultiHdr, "q2")
+	_ = ctx.Request.Header.PeekAll(c11MultiHdr)
+	_ = ctx.Request.Header.AddTrailer("X-Leak-Tr")
+	ctx.Request.Header.SetProtocol("HTTP/1.0")
 	ctx.Request.Header.SetCookie("leakreq", "1")
 	ctx.Request.Header.SetUserAgent("mutated-ua")
 	ctx.Request.Header.SetReferer("http://mutated/")
@@ -378,10 +454,13 @@ func c11Mutate(ctx *RequestCtx, do string, closes *atomic.Int64) {
 // ---- running a history -------------------------------------------------------------------------------------------
 
 type c11Resp struct {
-	Status  int
-	ByH     bool
-	Headers []string
-	Body    string
+	Status   int
+	ByH      bool
+	Headers  []string
+	Body     string
+	Line     string   // protocol + status line text as written
+	Chunked  bool     // Transfer-Encoding: chunked on the wire
+	Trailers []string // fields received after the chunked body
 }
 
 type c11ConnObs struct {
@@ -513,7 +592,19 @@ func c11RunOnce(h c11History) *c11Obs {
 				continue
 			}
 			ri++
-			r := c11Resp{Status: resp.StatusCode, ByH: resp.Header.Get("X-H") != "", Body: string(body)}
+			r := c11Resp{Status: resp.StatusCode, ByH: resp.Header.Get("X-H") != "", Body: string(body), Line: resp.Proto + " " + resp.Status}
+			for _, te := range resp.TransferEncoding {
+				r.Chunked = r.Chunked || te == "chunked"
+			}
+			for k, vs := range resp.Trailer { // complete once the body has been read
+				if len(vs) == 0 {
+					r.Trailers = append(r.Trailers, k+" (declared, not sent)")
+				}
+				for _, v := range vs {
+					r.Trailers = append(r.Trailers, k+": "+v)
+				}
+			}
+			sort.Strings(r.Trailers)
 			for k, vs := range resp.Header {
 				if k == "Date" {
 					continue // wall clock
@@ -696,8 +787,30 @@ func c11CheckAgainstNetHTTP(kind int, raw []byte, s *c11Snap) string {
 			return fmt.Sprintf("post args for a non-form body: %v", s.PostArgs)
 		}
 	}
+	var wantTr, gotTr []string
+	for k := range req.Trailer {
+		wantTr = append(wantTr, k)
+	}
+	for _, t := range s.ReqTrailer {
+		if !strings.HasPrefix(t, "Peek: ") {
+			gotTr = append(gotTr, t)
+		}
+	}
+	sort.Strings(wantTr)
+	sort.Strings(gotTr)
+	if c11JSON(wantTr) != c11JSON(gotTr) {
+		return fmt.Sprintf("declared request trailers: net/http %v, fasthttp %v", wantTr, gotTr)
+	}
+	// (the names in RawHeaders() are normalised in place by the parser: compare case-insensitively)
+	if !strings.Contains(strings.ToLower(string(raw)), strings.ToLower(s.ReqRaw)) {
+		return fmt.Sprintf("RawHeaders() is not a part of the bytes sent: %q", s.ReqRaw)
+	}
 	if s.UserValues != 0 || s.UserValsAll != 0 || s.UserValK {
 		return "fresh context has user values"
+	}
+	if len(s.RespTrailer) != 0 || len(s.RespMulti) != 0 || len(s.ReqMulti) != 0 ||
+		s.RespLine != `protocol="HTTP/1.1" status-message="" content-encoding=""` {
+		return fmt.Sprintf("fresh response is not the default: trailer declaration %v, %s values %v / %v, %s", s.RespTrailer, c11MultiHdr, s.RespMulti, s.ReqMulti, s.RespLine)
 	}
 	if s.RespStatus != 200 || s.RespBody != "" || len(s.RespCookies) != 0 || s.RespClose {
 		return fmt.Sprintf("fresh response is not the default: status %d body %q cookies %v close %v", s.RespStatus, s.RespBody, s.RespCookies, s.RespClose)
@@ -849,6 +962,12 @@ func c11RespDiff(a, b *c11Resp) string {
 		return "writer"
 	case c11JSON(a.Headers) != c11JSON(b.Headers):
 		return "headers"
+	case a.Line != b.Line:
+		return "status-line"
+	case a.Chunked != b.Chunked:
+		return "framing"
+	case c11JSON(a.Trailers) != c11JSON(b.Trailers):
+		return "trailers"
 	}
 	return "body"
 }
@@ -867,11 +986,10 @@ func c11Enumerate(maxLen int) []c11History {
 			if len(items) == maxLen {
 				return
 			}
-			kinds := c11NKinds
-			if !cfg.HdrRecv {
-				kinds = c11KGranted // without HeaderReceived the granted kind is just another oversized body
-			}
-			for k := 0; k < kinds; k++ {
+			for k := 0; k < c11NKinds; k++ {
+				if k == c11KGranted && !cfg.HdrRecv {
+					continue // without HeaderReceived the granted kind is just another oversized body
+				}
 				rec(append(items, c11Item{k, len(items) % 2, false}), conns)
 				if len(items) > 0 && conns < 2 {
 					rec(append(items, c11Item{k, len(items) % 2, true}), conns+1)
@@ -906,13 +1024,16 @@ func TestVerif_C11(t *testing.T) {
 		t.Logf("replayed %s (tries=%d, ctx reused=%v)", h, tries, o.CtxReused)
 		return
 	}
-	r.Rule("all histories of 1..3 (thorough: 1..4) requests over 12 (13 with HeaderReceived) request kinds {GET with query+cookies+headers, POST urlencoded, POST multipart, chunked POST (+trailer), Expect accepted, Expect rejected (body withheld), " +
-		"parse error, body over MaxRequestBodySize, hijack, 12 KB body the handler leaves unread, handler SetConnectionClose, HEAD} (variant = position mod 2 so that neighbours differ; variant 1 of GET and POST-urlencoded ends its query string, urlencoded body and Cookie header in a bare key whose slot held a value in variant 0), " +
+	r.Rule("all histories of 1..3 (thorough: 1..4) requests over 13 (14 with HeaderReceived) request kinds {GET with query+cookies+headers, POST urlencoded, POST multipart, chunked POST (+trailer), Expect accepted, Expect rejected (body withheld), " +
+		"parse error, body over MaxRequestBodySize, hijack, 12 KB body the handler leaves unread (answered with SetBodyRaw), handler SetConnectionClose (+ response protocol HTTP/1.0), HEAD, " +
+		"GET whose handler declares response trailers and answers with a body stream (variant 0: SetTrailer of two names, chunked, both fields sent after the body; variant 1: AddTrailer twice, stream of known size)} (variant = position mod 2 so that neighbours differ; variant 1 of GET and POST-urlencoded ends its query string, urlencoded body and Cookie header in a bare key whose slot held a value in variant 0), " +
 		"each later request either on the same connection or opening the second connection (served after the first returned, same Server, so that the pooled RequestCtx is reused; repeated until reuse is observed), " +
 		"x ReduceMemoryUsage x StreamRequestBody x {ContinueHandler, ExpectHandler} x Server.HeaderReceived {unset, set: RequestConfig{MaxRequestBodySize 64 KiB, Read/WriteTimeout} for /granted/ paths and the zero config otherwise; adds a 13th kind, a body over the server limit but within the grant}. The handler snapshots method, RequestURI, path, query, host, every header (VisitAll and in order), cookies, body, query/post args, multipart values, " +
-		"user values (VisitUserValues, VisitUserValuesAll), response status/headers/cookies/body/flags and Hijacked BEFORE mutating all of them (user values incl. an io.Closer, response, URI().SetPath, DisableNormalizing, HijackSetNoResponse, ...). " +
+		"user values (VisitUserValues, VisitUserValuesAll), response status/headers/cookies/body/flags (SkipBody, ImmediateHeaderFlush, StreamBody, IsBodyStream), response protocol/status message/content encoding, the declared response and request trailer names, PeekAll of a multi-value header, " +
+		"ResponseHeader.String() of the untouched response, RequestHeader.RawHeaders() and Hijacked BEFORE mutating all of them (user values incl. an io.Closer, response status/status message/content type/content encoding/server/cookie/headers incl. one added twice and one whose name the trailer kind declares as a trailer, " +
+		"URI().SetPath, DisableNormalizing, request AddTrailer/SetProtocol/multi-value header, HijackSetNoResponse, ...). " +
 		"Oracle: every invocation's snapshot equals the snapshot of the same bytes sent alone to a fresh Server (whose request part is checked against net/http.ReadRequest of the bytes: tool error on disagreement); " +
-		"every written response equals the response of the same request alone; a request that is dispatched when alone is, when answered at all, dispatched to the handler (in particular after a rejected expectation). " +
+		"every written response (status line, headers, chunked or not, body, trailer fields after the body) equals the response of the same request alone; a request that is dispatched when alone is, when answered at all, dispatched to the handler (in particular after a rejected expectation). " +
 		"Non-trivial: histories in which the handler ran at least twice, or ran after a request that was answered without the handler")
 	r.Assume("net/http.ReadRequest / ReadResponse as references for the bytes sent and written", "sync.Pool hands the RequestCtx released by the first connection to the second one (checked per history by pointer identity, counted)")
 	maxLen := vrt.Pick(r, 3, 4)
